@@ -1,7 +1,7 @@
 (* C06/Property.v — the property theorems and nothing else. *)
 From Coq Require Import List Reals.
 Import ListNotations.
-From SM Require Import Base.Num C06.Model C06.Proofs.
+From SM Require Import Base.Num C06.Model C06.Proofs Gen.C06_code C06.Translated.
 Open Scope R_scope.
 
 (* channel weights: (1-i)(1-f), (1-i)f, i(1-f), i f over max(f,1-f), for up-fractions clipped to [0,1] *)
@@ -55,3 +55,19 @@ Print Assumptions C06_property_form.
 Theorem C06_zero_M : forall l : list R, is_magnetic ROps l = false <-> Forall (fun m => m = 0) l.
 Proof. exact is_magnetic_false. Qed.
 Print Assumptions C06_zero_M.
+
+(* ---- the same statements about the TEXT of kernel_iq.c / kernel_header.c ----
+   Gen/C06_code.v is regenerated on every run from the current sources by harness/ctrans.py (set_spin_weights and
+   mag_sld, with SET_VEC / SCALAR_VEC / ORTH_VEC / clip inlined); these theorems are re-proved against it. *)
+Theorem C06_code_weights : forall i f,
+  let ic := clipR i in let fc := clipR f in let n := Rmax fc (1 - fc) in
+  code_spin_weights ROps (1/2) i f =
+  [ (1 - ic) * (1 - fc) / n; (1 - ic) * fc / n; ic * (1 - fc) / n; ic * fc / n; (1 - ic) * fc / n; ic * (1 - fc) / n ].
+Proof. exact code_spin_weights_formula. Qed.
+Print Assumptions C06_code_weights.
+
+Theorem C06_code_is_model : forall xs i f qx qy ct st cp sp sld mx my mz,
+  code_spin_weights ROps (1/2) i f = spin_weights ROps (1/2) i f /\
+  code_mag_sld ROps sqrt xs qx qy ct st cp sp sld mx my mz = mag_sld ROps sqrt xs qx qy ct st cp sp sld (V mx my mz).
+Proof. intros. split; [apply code_spin_weights_is_model | apply code_mag_sld_is_model]. Qed.
+Print Assumptions C06_code_is_model.
